@@ -22,6 +22,7 @@ import (
 type WorkerResult struct {
 	Stats      *Stats        `json:"stats"`
 	Violations []*ReplayFile `json:"violations"`
+	Nominated  [][2]int      `json:"nominated"` // (phase, index) of cases that exceeded a budget
 	Done       bool          `json:"done"`
 }
 
@@ -74,6 +75,13 @@ outer:
 			t := TapeFor(seed, p.ID(), pi, ph, i)
 			v, c, rec := runCase(p, ph, t, st)
 			if v == nil {
+				continue
+			}
+			if v.Nominate {
+				st.Count("budget_nominations")
+				if len(res.Nominated) < 8 {
+					res.Nominated = append(res.Nominated, [2]int{pi, i})
+				}
 				continue
 			}
 			if k := isKnown(p.ID(), v.Known); k != nil {
@@ -296,7 +304,11 @@ func reproduces(rf *ReplayFile, path string) (bool, string) {
 	}
 	how := ""
 	for a := 0; a < attempts; a++ {
-		co := runChild(90*time.Second, "solo", "--replay", path)
+		args := []string{"solo", "--replay", path}
+		if rf.Crash != "" {
+			args = append(args, "--nobudget")
+		}
+		co := runChild(90*time.Second, args...)
 		switch {
 		case rf.Crash != "":
 			if co.died || co.hung {
@@ -414,6 +426,9 @@ func superviseCheck(p Property, tier string, seed uint64) int {
 					mu.Lock()
 					merged.Merge(wr.Stats)
 					violations = append(violations, wr.Violations...)
+					for _, n := range wr.Nominated {
+						candidates = append(candidates, candidate{n[0], n[1], false, "exceeded a simulator budget inside the worker"})
+					}
 					mu.Unlock()
 					return
 				}
@@ -471,6 +486,7 @@ func superviseCheck(p Property, tier string, seed uint64) int {
 				continue
 			}
 			merged.Count("candidates_not_confirmed")
+			fmt.Printf("slow case: phase %d case %d exceeded a budget inside the worker but finished alone in %.1fs with the budgets lifted (not a violation)\n", c.phase, c.idx, co.elapsed.Seconds())
 			continue
 		}
 		// genuine: the process dies or hangs on this case. Get the case description and tape.
@@ -544,7 +560,11 @@ func shrinkCrash(rf *ReplayFile, dir string) *ReplayFile {
 		return rf
 	}
 	tmp := filepath.Join(dir, "shrink.json")
+	t0 := time.Now()
 	attempt := func(vals []uint64) (bool, []uint64) {
+		if time.Since(t0) > 3*time.Minute {
+			return false, nil
+		}
 		c := *rf
 		c.Tape = vals
 		os.WriteFile(tmp, []byte(mustJSON(&c)), 0o644)
